@@ -1,5 +1,5 @@
 """C12 - `is` and `as` agree with the FHIR and System type hierarchies."""
-from lib import driver as D
+from lib import driver as D, machine as M
 
 MUTANTS = ["primitiveNoSpecialise", "isIgnoresNamespace"]
 
@@ -24,6 +24,8 @@ def run(ctx):
     D.check_complete(verdicts, obs)
     by_id = {o["id"]: {"src": o["src"], "out": o["out"]} for o in obs}
     keys = [(o["cs"]["kind"], o["src"]) for o in obs if o["out"]["k"] == "ok" and o["out"]["items"]]
+    # programs of the whole abstract machine whose last step is one of this property's operations (lib/machine.py)
+    verdicts = M.extend(ctx, verdicts, by_id)
     return D.finish(ctx, verdicts, by_id, evaluations=len(obs),
                     rule="element cases: for every generated resource (as in C02) the first node of every message type and some choice-typed "
                          "nodes x {is, as} x {declared type, every ancestor, a sibling datatype and resource, the name in the other letter case, "
